@@ -19,10 +19,18 @@ OP2CLASS = {'not': 'Not', 'and': 'And', 'or': 'Or', 'imp': 'Imply', 'X': 'X', 'F
 CLASS2OP = dict((v, k) for k, v in OP2CLASS.items())
 
 
+def repo_root():
+    # /repo unless a background sweep points the harness at a snapshot of it (VERIF_REPO together
+    # with PYTHONPATH); registered commands never set it
+    import os
+    return os.environ.get('VERIF_REPO') or '/repo'
+
+
 def assert_repo_import():
     path = pyModelChecking.__file__
-    if not path.startswith('/repo/'):
-        raise RuntimeError('pyModelChecking resolves to %s, not /repo' % path)
+    root = repo_root().rstrip('/') + '/'
+    if not path.startswith(root):
+        raise RuntimeError('pyModelChecking resolves to %s, not %s' % (path, root))
     return path
 
 
